@@ -592,6 +592,9 @@ pub fn c02_emit_pop_frame_data_eos() { pop_frame_one_data(true) }
 /// mode 0: stream untouched meanwhile (in_flight = DataFrame(key));
 /// mode 1: the stream's queue was cleared in the unlocked window (in_flight = Drop).
 fn reclaim_case(mode: u8, queued_behind: bool) {
+    reclaim_case_eos(mode, queued_behind, None)
+}
+fn reclaim_case_eos(mode: u8, queued_behind: bool, eos_fixed: Option<bool>) {
     let mut w = world(3);
     {
         let mut p = w.store.resolve(w.key);
@@ -601,7 +604,7 @@ fn reclaim_case(mode: u8, queued_behind: bool) {
     let n: usize = kani::any();
     let off: usize = kani::any();
     kani::assume(sz as u64 <= MAXW as u64 && n <= sz && off <= (1usize << 40));
-    let eos: bool = kani::any();
+    let eos: bool = match eos_fixed { Some(e) => e, None => kani::any() };
     // what pop_frame produced: Take limited to n, END_STREAM cleared on a partial piece
     let mut d = frame::Data::new(StreamId::from(ID), Prioritized {
         inner: bytes::Buf::take(SymBuf { off, rem: sz }, n),
@@ -659,7 +662,8 @@ fn reclaim_case(mode: u8, queued_behind: bool) {
     kani::cover!(true, "end");
     forget(w);
 }
-pub fn c01_reclaim_tail() { reclaim_case(0, false) }
+pub fn c01_reclaim_tail() { reclaim_case_eos(0, false, Some(false)) }
+pub fn c01_reclaim_tail_eos() { reclaim_case_eos(0, false, Some(true)) }
 pub fn c01_reclaim_tail_queue_behind() { reclaim_case(0, true) }
 pub fn c20_window_reclaim_after_clear() { reclaim_case(1, false) }
 
